@@ -619,6 +619,81 @@ def _(v):
     v.prove("claims_are_made_in_both_regimes_by_every_chain", all(claimed.get(k, 0) >= n for k, n in want.items()), detail=repr(claimed))
 
 
+def _salt_from_text(formation, m, substances, **kw):
+    """the system of _water_and_salt written down as TEXT (the way the README sets up an equilibrium system), water first; `substances` is
+    None (the species are collected from the reactions) or the species names as list / tuple / blank-separated string / set"""
+    from chempy.equilibria import EqSystem
+    names = ["H2O", "H+", "OH-", "Ag+", "Cl-", "AgCl(s)"]
+    Kw, Ksp = 1e-14 / 55.5, 1.8e-10
+    pre = "" if m == 1 else "%d " % m
+    ions, solid = "%sAg+ + %sCl-" % (pre, pre), "%sAgCl(s)" % pre
+    salt = "%s = %s; %r" % (ions, solid, Ksp ** -m) if formation else "%s = %s; %r" % (solid, ions, Ksp ** m)
+    text = "# water, then the salt\nH2O = H+ + OH-; %r\n%s\n" % (Kw, salt)
+    given = {"collected": None, "list": names, "tuple": tuple(names), "string": " ".join(names), "set": set(names)}[substances]
+    return EqSystem.from_string(text, given, **kw), names, Kw, Ksp
+
+
+@harness("C08", "salt_written_as_text", functions=["chempy.reactionsystem:ReactionSystem.from_string", "chempy.reactionsystem:ReactionSystem.__init__", EQ + ":EqSystem.root",
+                                                   EQ + ":EqSystem.phase_transfer_reaction_idxs", EQ + ":EqSystem.other_phase_species_idxs", "chempy.chemistry:Reaction.has_precipitates"], kind="data")
+def _(v):
+    """the precipitation clause does not depend on HOW the system was written down: an equilibrium system set up from text (EqSystem.from_string,
+    species collected from the reactions or named as list / tuple / string / set, or with the species factory named explicitly) whose salt carries
+    the phase suffix '(s)' is the same precipitation system as the one built from Species objects. (a) the salt -- and only the salt -- is a
+    phase-transfer equilibrium and the solid -- and only the solid -- a species of another phase, wherever they stand; (b) the property itself:
+    whenever root() claims success and a sane result, solid present => [Ag+][Cl-] = Ksp, solid absent => [Ag+][Cl-] <= Ksp, water's Q = K,
+    totals kept (_genuine), for states in which solid must remain and in which none may, under every way of building the solver. A solid that is
+    solved for like a solute (Q = [Ag+][Cl-]/[AgCl(s)] = Ksp) conserves everything and is non-negative, but is not genuine"""
+    import warnings
+    from chempy.chemistry import Species
+    variants = [(False, 1, "collected", {}), (True, 1, "collected", {}), (False, 2, "collected", {}), (False, 1, "list", {}), (True, 1, "string", {}), (False, 1, "tuple", {}),
+                (True, 2, "set", {}), (False, 1, "collected", {"substance_factory": Species.from_formula}), (True, 1, "list", {"substance_factory": Species.from_formula})]
+    bad = []
+    for formation, m, substances, kw in variants:
+        try:
+            es, names, Kw, Ksp = _salt_from_text(formation, m, substances, **kw)
+            keys = list(es.substances)
+            if sorted(keys) != sorted(names) or (substances in ("list", "tuple", "string") and keys != names):
+                bad.append((formation, m, substances, "species", keys))
+                continue
+            salt = [i for i, r in enumerate(es.rxns) if "AgCl(s)" in r.keys()]
+            got = (sorted(es.phase_transfer_reaction_idxs()), sorted(es.other_phase_species_idxs()), [bool(r.has_precipitates(es.substances)) for r in es.rxns])
+            want = (salt, [keys.index("AgCl(s)")], [i in salt for i in range(len(es.rxns))])
+            if len(es.rxns) != 2 or len(salt) != 1 or got != want:
+                bad.append((formation, m, substances, sorted(kw), got, want))
+        except Exception as ex:
+            bad.append((formation, m, substances, sorted(kw), repr(ex)[:200]))
+    v.prove("solid_of_a_text_system_is_another_phase", not bad, detail=repr(bad[:3]))
+    remains = [[0.1, 0.05, 0.0], [0.0, 0.01, 0.2], [1e-3, 2e-3, 0.0]]                 # all dissolved: ion product >= 2e-6 >> Ksp = 1.8e-10
+    dissolves = [[1e-5, 1e-5, 0.0], [1e-6, 2e-6, 0.0], [2e-6, 1e-6, 3e-6], [1e-3, 0.0, 1e-8]]     # all dissolved: ion product <= 1e-10 < Ksp
+    bad, claimed = [], {}
+    for formation, m, substances, kw in variants[:5]:
+        try:
+            es, names, Kw, Ksp = _salt_from_text(formation, m, substances, **kw)
+            keys = list(es.substances)
+        except Exception as ex:
+            bad.append((formation, m, substances, repr(ex)[:200]))
+            continue
+        for regime, cases in (("solid_remains", remains), ("solid_dissolves", dissolves)):
+            for how, kw2 in (("chained_conditional", {}), ("conditional_chained", {}), ("static_conditions", {"precipitates": (regime == "solid_remains",)})):
+                for c in cases:
+                    c0 = [55.5, 1e-7, 1e-7] + c
+                    try:
+                        with warnings.catch_warnings():
+                            warnings.simplefilter("ignore")
+                            x, sol, sane = es.root(dict(zip(names, c0)), neqsys_type=how, **kw2)
+                        if sol["success"] and sane:
+                            claimed[(how, regime)] = claimed.get((how, regime), 0) + 1
+                            why = _genuine([x[keys.index(k)] for k in names], c0, Kw, Ksp)      # by NAME: the order of the species is the system's business
+                            if why:
+                                bad.append((formation, m, substances, how, c, why))
+                    except Exception as ex:
+                        bad.append((formation, m, substances, how, c, repr(ex)[:120]))
+    v.prove("claimed_states_are_genuine", not bad, detail=repr(bad[:3]))
+    # not vacuous: in both regimes each way of building the solver does claim success for at least half of the 5 x 3 resp. 5 x 4 runs
+    want = {(how, regime): n for how in ("chained_conditional", "conditional_chained", "static_conditions") for regime, n in (("solid_remains", 8), ("solid_dissolves", 10))}
+    v.prove("claims_are_made_in_both_regimes_by_every_chain", all(claimed.get(k, 0) >= n for k, n in want.items()), detail=repr(claimed))
+
+
 @harness("C08", "single_equilibrium.integer_inputs", functions=["chempy._equilibrium:solve_equilibrium"], kind="data")
 def _(v):
     """the single-equilibrium solver for concentrations given as integers (a list of ints, an integer array): the answer is the same as for the
